@@ -312,7 +312,7 @@ func decodeSweep(g *rig, idx, n int) {
 				fmt.Fprintf(&sb, ":%d", evN)
 				w.ev = vaxis.EventType(evN - 1)
 			}
-			switch (m / 12) % 3 {
+			switch (m/12 + code) % 3 { // depends on the code too: every mask meets every text variant
 			case 1:
 				sb.WriteString(";120")
 				w.text, w.hasText = "x", true
@@ -321,6 +321,15 @@ func decodeSweep(g *rig, idx, n int) {
 				w.text, w.hasText = "xy", true
 			}
 			sb.WriteString("u")
+			if !w.hasText {
+				// no text field: the key has no text, except for the documented work-around - a
+				// printable key with Shift as its only real modifier (lock bits ignored) gets the
+				// upper-cased key as text (terminals that report Shift+Space as CSI 32;2 u)
+				w.hasText = true
+				if vaxis.ModifierMask(m)&^locks == vaxis.ModShift && unicode.IsPrint(wcode) {
+					w.text = string(unicode.ToUpper(wcode))
+				}
+			}
 			g.expect("csi-u", "CSI code[:shifted[:base]];mods[:event][;text] u", sb.String(), w, m*4096+code%4096)
 		}
 	}
